@@ -906,6 +906,12 @@ func (m *Manager) ChangePassphrase(ns walletdb.ReadWriteBucket, oldPassphrase,
 		return managerError(ErrWatchingOnly, errWatchingOnly, nil)
 	}
 
+	// As in Create, the private passphrase may not be empty.
+	if private && len(newPassphrase) == 0 {
+		str := "private passphrase may not be empty"
+		return managerError(ErrEmptyPassphrase, str, nil)
+	}
+
 	m.mtx.Lock()
 	defer m.mtx.Unlock()
 
